@@ -1,9 +1,9 @@
 #!/bin/sh
 # usage: tools/confirm_seed.sh <id> <k>   -- confirms a seeded change myself in a scratch worktree of the CURRENT /repo HEAD:
-#   patch applies; demo FAILs with it and PASSes without it; the complete suite gives the baseline result with it.  Writes /tmp/confirm/<id>_<k>.json
-id=$1; k=$2; out=/tmp/confirm; mkdir -p $out
+#   patch applies; demo FAILs with it and PASSes without it; the complete suite gives the baseline result with it.  Writes ${CONFIRM_DIR:-/tmp/confirm}/<id>_<k>.json
+id=$1; k=$2; out=${CONFIRM_DIR:-/tmp/confirm}; mkdir -p $out
 wt=$out/wt_${id}_$k
-src=/tmp/seed/$id.out
+src=${SEED_DIR:-/tmp/seed}/$id.out
 rm -rf $wt; git -C /repo worktree add -q --detach $wt HEAD || exit 3
 res="applies=no"
 if git -C $wt apply $src/patch_$k.diff 2>/dev/null || git -C $wt apply -3 $src/patch_$k.diff 2>/dev/null; then
@@ -11,7 +11,7 @@ if git -C $wt apply $src/patch_$k.diff 2>/dev/null || git -C $wt apply -3 $src/p
   (cd $wt && PYTHONPATH=$wt/src TQDM_DISABLE=1 timeout 900 /venv/bin/python $src/demo_$k.py > $out/${id}_$k.demo_with.log 2>&1); dw=$?
   (cd $wt && PYTHONPATH=$wt/src timeout 3000 /venv/bin/python -m pytest -q -p no:cacheprovider --timeout=900 -x --deselect tests/test_sample_simple_cur.py > $out/${id}_$k.suite.log 2>&1); st=$?
   suite=$(tail -1 $out/${id}_$k.suite.log)
-  git -C $wt diff > $out/${id}_$k.patch_on_head.diff
+  git -C $wt diff HEAD > $out/${id}_$k.patch_on_head.diff
   git -C $wt checkout -q -- . ; git -C $wt reset -q --hard
   (cd $wt && PYTHONPATH=$wt/src TQDM_DISABLE=1 timeout 900 /venv/bin/python $src/demo_$k.py > $out/${id}_$k.demo_without.log 2>&1); dn=$?
   res="applies=yes demo_with_patch_exit=$dw demo_without_patch_exit=$dn suite_exit=$st suite='$suite'"
